@@ -15,6 +15,50 @@ def keys_inside(docs):
                     ks.append(k)
     return ks or ['a']
 
+def rename_at(raw, path, old, new):
+    """the document with the mapping key `old` renamed to `new` in the mapping at `path` only (nowhere else)"""
+    n = dict(raw)
+    if not path:
+        if 'm' in n:
+            n['m'] = [[new if (not isinstance(k, dict) and sc_py(k) == old and isinstance(sc_py(k), str)) else k, c] for k, c in n['m']]
+        return n
+    h, rest = path[0], path[1:]
+    if 'm' in n:
+        n['m'] = [[k, rename_at(c, rest, old, new) if (not isinstance(k, dict) and sc_py(k) == h and type(sc_py(k)) is type(h)) else c] for k, c in n['m']]
+    elif 'q' in n and isinstance(h, int) and not isinstance(h, bool) and 0 <= h < len(n['q']):
+        n['q'] = [rename_at(c, rest, old, new) if i == h else c for i, c in enumerate(n['q'])]
+    return n
+
+def rename_val_at(v, path, old, new):
+    """the same renaming on the value JSON of a config"""
+    if not isinstance(v, dict):
+        return v
+    if not path:
+        if 'd' in v:
+            return dict(v, d=[[new if k == old else k, x] for k, x in v['d']])
+        return v
+    h, rest = path[0], path[1:]
+    if 'd' in v:
+        return dict(v, d=[[k, rename_val_at(x, rest, old, new) if (k == h and type(k) is type(h)) else x] for k, x in v['d']])
+    if 'l' in v and isinstance(h, int) and not isinstance(h, bool) and 0 <= h < len(v['l']):
+        return dict(v, l=[rename_val_at(x, rest, old, new) if i == h else x for i, x in enumerate(v['l'])])
+    return v
+
+def local_rename_choices(docs):
+    """(path of a mapping, key) pairs, string keys only; first those whose key name also occurs at another path (that is where
+    the name of a key could wrongly matter), then the others"""
+    seen, names = [], {}
+    if any(type(k) is int and k < 0 for d in docs for p, _ in G.paths_of(d['raw']) for k in p):
+        return []      # a negative index is a second spelling of a list position: "the same path in every document" is not syntactic then
+    for d in docs:
+        for p, _ in G.paths_of(d['raw']):
+            if p and isinstance(p[-1], str) and all(isinstance(k, str) or (type(k) is int and k >= 0) for k in p):   # negative indices alias positions
+                if p not in seen:
+                    seen.append(p)
+                    names.setdefault(p[-1], set()).add(p[:-1])
+    multi = [p for p in seen if len(names[p[-1]]) > 1]
+    return multi or seen
+
 def unwrap_val(v, keys):
     """value JSON of cfg[keys...] or None"""
     for k in keys:
@@ -31,8 +75,11 @@ class C05(MergeFamProp):
     VOCAB = G.Vocab(prio=True, delete=True, new=True, unsafe=True, meta=True, notnew=True, clear=True)
     NMAX = 3
     RULE = ('merge sequences over the merge-control vocabulary (incl. !notnew, !clear); every sequence is built as written, wrapped '
-            'under a chain of 1-3 keys drawn from the keys occurring inside the documents, and with an unrelated sibling key added to '
-            'every document; non-trivial = at least two stages sharing a path; distinct by SHA-1')
+            'under a chain of 1-3 keys drawn from the keys occurring inside the documents, with an unrelated sibling key added to '
+            'every document, with one key name renamed everywhere, and with one key renamed in one mapping only (the same path in every '
+            'document; preferably a name that also occurs at another path); every related run is also compared with the model; a '
+            'targeted family puts a deleting mapping over a tree with !force / !weak entries two and three levels down, all names from '
+            'a three-letter alphabet; non-trivial = at least two stages sharing a path; distinct by SHA-1')
     ASSUMPTIONS = ['error results are compared by class and (for !notnew errors) by the named path with the wrapping prefix removed']
 
     def corpus(self):
@@ -58,6 +105,35 @@ class C05(MergeFamProp):
             base = M([('x', M([('y', Q([S(1), S(2)])), ('z', S(3))])), (k, rng.choice([Q([S(4), S(5)]), M([('p', S(6))])])), ('a', Q([S(7)]))])
             op = rng.choice([Sempty('clear'), Sempty('clear'), M([('q', S(8))], kw={'del': True}), Q([S(9)], kw={'del': False})])
             gen[i % len(gen)] = {'docs': [{'raw': base}, {'raw': M([(k, op)])}], 'style': ['flow', 0, 0]}
+        # targeted family: a deleting mapping over a tree with protected entries two and three levels down, all key names drawn
+        # (with repetition) from a three-letter alphabet, so that a direct child of the deleting mapping often carries the name of
+        # a deeper key of the older tree
+        for i in range(max(4, n // 8)):
+            al = rng.sample(['a', 'b', 'c', 'k', 'x'], 3)
+            nm = lambda: rng.choice(al)
+            tag = lambda: rng.choice([{}, {}, {'prio': 1}, {'prio': 1}, {'prio': -1}])
+            leaf = lambda: S(rng.randrange(9), kw=tag())
+            def deep(d):
+                items, used = [], set()
+                for _ in range(rng.choice([1, 2, 2, 3])):
+                    k = nm()
+                    if k in used: continue
+                    used.add(k)
+                    items.append((k, deep(d - 1) if d > 0 and rng.random() < 0.6 else leaf()))
+                return M(items, kw=tag() if rng.random() < 0.2 else {})
+            r = nm()
+            older = M([(r, deep(2))])
+            newer_items, used = [], set()
+            for _ in range(rng.choice([1, 2, 3])):
+                k = nm()
+                if k in used: continue
+                used.add(k)
+                newer_items.append((k, leaf() if rng.random() < 0.7 else deep(1)))
+            newer = M([(r, M(newer_items, kw=dict(tag(), **{'del': True})))])
+            docs = [{'raw': older}, {'raw': newer}]
+            if rng.random() < 0.3:
+                docs.append({'raw': M([(r, deep(1))])})
+            gen[(len(gen) - 1 - i) % len(gen)] = {'docs': docs, 'style': ['flow', 0, 0]}
         for c in gen:
             ks = keys_inside(c['docs'])
             c['wrap'] = [rng.choice(ks) for _ in range(rng.choice([1, 1, 2, 3]))]
@@ -66,11 +142,10 @@ class C05(MergeFamProp):
             out.append(c)
         return out
 
-    def impl(self, case):
-        io = super().impl(case)
-        st = case.get('style', ['flow', 0, 0])
-        wdocs = [dict(d, raw=wrap_raw(d['raw'], case['wrap'])) for d in case['docs']]
-        io['wrapped'] = impl_config(wdocs, self.WORLD, *st)
+    def related(self, case):
+        """the related runs of a case: name -> documents (plus what was renamed)"""
+        out, info = {}, {}
+        out['wrapped'] = [dict(d, raw=wrap_raw(d['raw'], case['wrap'])) for d in case['docs']]
         sk, sv = case['sib']
         sdocs = []
         for i, d in enumerate(case['docs']):
@@ -78,12 +153,12 @@ class C05(MergeFamProp):
             if not any(k == sk for k, _ in r['m']):
                 r['m'] = r['m'] + [[sk, S(sv) if i % 2 == 0 else Q([S(sv), S(i)])]]
             sdocs.append(dict(d, raw=r))
-        io['sibling'] = impl_config(sdocs, self.WORLD, *st)
+        out['sibling'] = sdocs
         # consistent renaming of one key name everywhere (to a plain identifier that occurs nowhere)
         names = [k for k in keys_inside(case['docs']) if k not in ('zz9',)]
         odd = [k for k in names if not k.isidentifier()] or names
         old = odd[case.get('vseed', 0) % len(odd)] if odd else None
-        io['renamed_key'] = old
+        info['renamed_key'] = old
         if old is not None:
             def ren(n):
                 m = dict(n)
@@ -92,8 +167,47 @@ class C05(MergeFamProp):
                 elif 'q' in m:
                     m['q'] = [ren(c) for c in m['q']]
                 return m
-            io['renamed'] = impl_config([dict(d, raw=ren(d['raw'])) for d in case['docs']], self.WORLD, *st)
+            out['renamed'] = [dict(d, raw=ren(d['raw'])) for d in case['docs']]
+        # renaming ONE key in ONE mapping (the same path in every document) to a name that occurs nowhere: "how keys elsewhere are named"
+        ch = local_rename_choices(case['docs'])
+        if ch and 'zz8' not in names:
+            lp = ch[(case.get('vseed', 0) // 7) % len(ch)]
+            info['local_rename'] = [list(lp[:-1]), lp[-1]]
+            out['locally_renamed'] = [dict(d, raw=rename_at(d['raw'], list(lp[:-1]), lp[-1], 'zz8')) for d in case['docs']]
+        return out, info
+
+    def impl(self, case):
+        io = super().impl(case)
+        st = case.get('style', ['flow', 0, 0])
+        rel, info = self.related(case)
+        io.update(info)
+        for name, docs in rel.items():
+            io[name] = impl_config(docs, self.WORLD, *st)
         return io
+
+    # every related run also goes through the model (a change of the implementation that shows only in a related run breaks
+    # the correspondence)
+    def model_requests(self, case):
+        reqs = super().model_requests(case)
+        for name, docs in self.related(case)[0].items():
+            reqs.append({'op': 'config', 'docs': docs, 'world': self.WORLD})
+        return reqs
+
+    def model_obs(self, case, answers):
+        mo = super().model_obs(case, answers)
+        mo['rel'] = dict(zip(self.related(case)[0].keys(), answers[2:]))
+        return mo
+
+    def compare(self, case, io, mo):
+        d = super().compare(case, io, mo)
+        if d is not None:
+            return d
+        for name, a in mo['rel'].items():
+            d = compare_config(io[name], a)
+            if d in ('SKIP', None) or d.startswith('KNOWN:'):
+                continue
+            return f'related run {name!r}: evaluated config: ' + d
+        return None
 
     def oracle(self, case, io, ans):
         base, w, s = io['cfg'], io['wrapped'], io['sibling']
@@ -133,6 +247,17 @@ class C05(MergeFamProp):
                 d = first_diff(strip_ids(base['ok']), back(strip_ids(rn['ok'])))
                 if d:
                     return f'renaming the key {io["renamed_key"]!r} everywhere changes the merged content: ' + d
+        lr = io.get('locally_renamed')
+        if lr is not None and not any((n.get('t') or {}).get('k') in ('xref', 'prev', 'eval') for d_ in case['docs'] for _, n in G.paths_of(d_['raw'])):
+            lpath, lkey = io['local_rename']
+            where = '.'.join(map(str, lpath)) or '<root>'
+            if ('ok' in base) != ('ok' in lr):
+                if not (base.get('err') == 'merge' and 'notnew' in base) and not (lr.get('err') == 'merge' and 'notnew' in lr):
+                    return f'renaming the key {lkey!r} inside the mapping at {where} (only there) changes the outcome: {base.get("err", "ok")} -> {lr.get("err", "ok")}'
+            elif 'ok' in base:
+                d = first_diff(rename_val_at(strip_ids(base['ok']), lpath, lkey, 'zz8'), strip_ids(lr['ok']))
+                if d:
+                    return f'renaming the key {lkey!r} inside the mapping at {where} (only there) changes the merged content elsewhere: ' + d
         if 'ok' in base and 'ok' in s:
             sk = case['sib'][0]
             bd = [kv for kv in strip_ids(base['ok'])['d'] if kv[0] != sk]
